@@ -63,6 +63,7 @@ const REQ_BODY_DAMAGE: &[FK] = &[
     FK::TypeConfusion,
     FK::WrongDocument,
     FK::UnionMismatch,
+    FK::NumberOutOfRange,
     FK::ByteFlip,
 ];
 const PARAM_FAULTS: &[FK] = &[
@@ -87,6 +88,7 @@ const RESP_DAMAGE: &[FK] = &[
     FK::WrongDocument,
     FK::UnionMismatch,
     FK::UnionReorder,
+    FK::NumberOutOfRange,
     FK::ByteFlip,
     FK::Pretty,
     FK::TrailingWs,
@@ -352,7 +354,18 @@ impl Engine for WireEngine {
     }
 
     fn required_probes(&self) -> Vec<&'static str> {
-        vec!["probe.handler_invoked"]
+        let mut v = vec!["probe.handler_invoked"];
+        match (self.profile, self.enumerate) {
+            (Profile::C04, _) => v.extend(["probe.c04_evaluated", "sched.blocking_threaded_runs", "sched.choice_among_runnable", "body.request_reset"]),
+            (Profile::C06, false) => v.extend(["probe.c06_evaluated", "fault.union_mismatch_fired", "fault.wrong_document_fired", "fault.stream_error_fired"]),
+            (Profile::C06, true) => v.extend(["probe.c06_evaluated"]),
+            (Profile::C07, _) => v.extend(["probe.c07_uri_checked", "probe.call_refused_by_client_encoder"]),
+            (Profile::C09, _) => v.extend(["probe.c09_twin_runs", "probe.c09_safe_arg_expected", "sched.blocking_threaded_runs"]),
+            (Profile::C18, false) => v.extend(["probe.c18_evaluated", "fault.union_mismatch_fired", "fault.wrong_document_fired"]),
+            (Profile::C18, true) => v.extend(["probe.c18_evaluated"]),
+            (Profile::C19, _) => {}
+        }
+        v
     }
 }
 
@@ -465,7 +478,43 @@ impl WireEngine {
                 client_kind = crate::mirror::ClientKind::Macro;
                 ctx.count("probe.macro_only_endpoint_call");
             }
-            let args = ctx.with_tape(|t| crate::mirror::gen_args(ep, t, &st.knobs));
+            let mut args = ctx.with_tape(|t| crate::mirror::gen_args(ep, t, &st.knobs));
+            if self.profile == Profile::C07 && ctx.chance(1, 10) {
+                // aim the encoded URI at the longest length `http::Uri` can hold (65534 bytes), give
+                // or take a byte: measure the URI with one plain-string argument emptied, then fill
+                // that argument with as many unreserved characters as are missing
+                let meta = &ir().eps[ep];
+                let off = if matches!(meta.auth, Auth::None) { 0 } else { 1 };
+                let cands: Vec<usize> = meta
+                    .args
+                    .iter()
+                    .enumerate()
+                    .filter(|(_, a)| matches!(a.kind, PKind::Path | PKind::Query) && a.ty == Ty::Prim(crate::ir::Prim::String))
+                    .map(|(i, _)| i + off)
+                    .collect();
+                if !cands.is_empty() {
+                    let i = cands[ctx.draw(cands.len() as u64) as usize];
+                    let name = args[i].name;
+                    args[i] = ArgVal::new(name, Box::new(String::new()));
+                    let seen = Arc::new(Mutex::new(None));
+                    let probe = SimTransport {
+                        sh: st.sh.clone(),
+                        call: c as u32,
+                        plan: Arc::new(Mutex::new(base_plan(ctx, &st.knobs))),
+                        measure: Some(seen.clone()),
+                    };
+                    let _ = guarded(|| crate::mirror::call_blocking(&probe, client_kind, ep, &args));
+                    let measured: Option<usize> = *seen.lock().unwrap();
+                    if let Some(l0) = measured {
+                        let target = 65534 + *ctx.with_tape(|t| t.pick(&[-2i64, -1, 0, 0, 1, 1, 2, 3])) as i64;
+                        let fill = target - l0 as i64;
+                        if fill >= 0 {
+                            args[i] = ArgVal::new(name, Box::new("a".repeat(fill as usize)));
+                            ctx.count("probe.c07_uri_aimed_at_length_limit");
+                        }
+                    }
+                }
+            }
             let ret = ctx.with_tape(|t| crate::mirror::gen_ret(ep, t, &st.knobs));
             let mut plan = self.plan_for(ctx, &st.knobs, faults_on && !(clean_follow_up && c == 1), &run_enabled);
             if clean_follow_up && c == 1 {
@@ -509,6 +558,7 @@ impl WireEngine {
                 sh: st.sh.clone(),
                 call: c as u32,
                 plan: Arc::new(Mutex::new(plan)),
+                measure: None,
             });
         }
         // ---- execute
